@@ -102,20 +102,55 @@ def _specs(prop: str):
     return sorted(set(pairs))
 
 
+_ALL = {}
+
+
+def _all_functions(repo):
+    """qualified name -> node for every function of ndonnx/ (any depth)."""
+    key = str(repo)
+    if key not in _ALL:
+        d = {}
+        for p in sorted((repo / "ndonnx").rglob("*.py")):
+            rel = str(p.relative_to(repo))
+            try:
+                tree = ast.parse(p.read_text())
+            except SyntaxError:
+                continue
+            for q, node in _functions(tree):
+                d[f"{rel}::{q}"] = node
+        _ALL[key] = d
+    return _ALL[key]
+
+
+def _hash(node) -> str:
+    import copy
+    return hashlib.sha256(ast.dump(_strip(copy.deepcopy(node)), annotate_fields=False, include_attributes=False).encode()).hexdigest()[:20]
+
+
 def hashes(prop: str, repo=None) -> list[tuple[str, str]]:
+    """Anchored / modelled functions of the property (a name that is a class stands for all its methods) and the
+    functions of ndonnx/ they call directly (matched by name: an over-approximation)."""
     repo = repo or core.REPO
-    out = []
-    trees = {}
+    allf = _all_functions(repo)
+    base = set()
     for f, name in _specs(prop):
-        if f not in trees:
-            p = repo / f
-            trees[f] = _functions(ast.parse(p.read_text())) if p.exists() else []
-        for q, node in trees[f]:
-            if q.split(".")[-1] == name:
-                import copy
-                h = hashlib.sha256(ast.dump(_strip(copy.deepcopy(node)), annotate_fields=False, include_attributes=False).encode()).hexdigest()[:20]
-                out.append((f"{f}::{q}", h))
-    return sorted(set(out))
+        for k in allf:
+            rel, q = k.split("::")
+            parts = q.split(".")
+            if rel == f and (parts[-1] == name or name in parts[:-1]):
+                base.add(k)
+    byname = {}
+    for k in allf:
+        byname.setdefault(k.split("::")[1].split(".")[-1], []).append(k)
+    callees = set()
+    for k in base:
+        for n in ast.walk(allf[k]):
+            if isinstance(n, ast.Call):
+                fn = n.func
+                nm = fn.attr if isinstance(fn, ast.Attribute) else fn.id if isinstance(fn, ast.Name) else None
+                if nm in byname and len(byname[nm]) <= 6:       # names defined in more than 6 places (copy, shape, ...) say nothing
+                    callees.update(byname[nm])
+    return sorted((k, _hash(allf[k])) for k in base | callees)
 
 
 def emit(rows, name="snap") -> str:
@@ -147,7 +182,7 @@ def tie(ctx) -> list[str]:
     f = ctx.work / "TieSnap.v"
     f.write_text(TIE.replace("@P@", ctx.prop))
     ok0, _ = ctx.compile("T-snap: GenSnap.v compiles", ctx.work / "GenSnap.v")
-    ok, out = ctx.compile(f"T-snap: the {len(rows)} functions this property is anchored in / the models re-state read exactly as when the models were transcribed (AST hash, docstrings/annotations/formatting ignored)", f, kind="tie")
+    ok, out = ctx.compile(f"T-snap: the {len(rows)} functions this property is anchored in / the models re-state (and the library functions they call directly) read exactly as when the models were transcribed (AST hash, docstrings/annotations/formatting ignored)", f, kind="tie")
     ctx.trusted.append("tools/translate/snap.py (AST hashing of the anchored functions; a change detector, not a proof)")
     if ok:
         return []
